@@ -10,6 +10,8 @@ import (
 	"sort"
 	"strconv"
 	"strings"
+	"sync"
+	"sync/atomic"
 )
 
 type Out struct {
@@ -267,10 +269,30 @@ func snapshotConflict(a *Abs) bool {
 	return false
 }
 
+// modelVerdicts counts, per command, how often the model had an opinion ("judged") and how often it
+// declined ("open": conflicting staging area, flags or argument shapes it does not define). The counts
+// go into the evidence so that a check whose model declines most of the time is visible as such.
+var modelVerdicts sync.Map // "<cmd>:judged|open" -> *int64
+
+func countVerdict(cmd string, judged bool) {
+	k := cmd + ":open"
+	if judged {
+		k = cmd + ":judged"
+	}
+	v, _ := modelVerdicts.LoadOrStore(k, new(int64))
+	atomic.AddInt64(v.(*int64), 1)
+}
+
 func Allowed(a *Abs, st Step) []Out {
 	if st.Op != "run" || len(st.Args) == 0 {
 		return nil
 	}
+	outs := allowed(a, st)
+	countVerdict(st.Args[0], outs != nil)
+	return outs
+}
+
+func allowed(a *Abs, st Step) []Out {
 	if indexConflict(a) || snapshotConflict(a) {
 		return nil
 	}
